@@ -49,6 +49,7 @@ from basilisp.lang.interfaces import (
     IReduce,
     ISeq,
     ISeqable,
+    ISequential,
     ITransientAssociative,
     ITransientSet,
     ReduceFunction,
@@ -2090,7 +2091,8 @@ class _TrampolineArgs:
     def args(self) -> tuple:
         """Return the arguments for a trampolined function. If the function
         that is being trampolined has varargs, unroll the final argument if
-        it is a sequence."""
+        it is a sequence or another sequential collection (such as a vector),
+        since the final argument of `recur` is the new rest parameter."""
         if not self._has_varargs:
             return self._args
 
@@ -2098,7 +2100,7 @@ class _TrampolineArgs:
             final = self._args[-1]
             if final is None:
                 return self._args[:-1]
-            if isinstance(final, ISeq):
+            if isinstance(final, (ISeq, ISequential)):
                 inits = self._args[:-1]
                 return tuple(itertools.chain(inits, final))
             return self._args
